@@ -119,6 +119,15 @@ def install_hooks():
     A.Match._c22_hooked = True
 
 
+def patient(fn, secs):
+    """`with_timeout`, but a wall-clock limit that fires on a loaded machine is no evidence: a Timeout is
+    confirmed once with a generous limit before it becomes an observation"""
+    r = with_timeout(fn, secs)
+    if isinstance(r, dict) and r.get("other") == "Timeout":
+        r = with_timeout(fn, 20)
+    return r
+
+
 def run_text(mm, text, ctx=False):
     """mm.model_from_str(text) with recording.  Returns (load outcome, parser or None, log)."""
     install_hooks()
@@ -373,6 +382,8 @@ class Prop(Check):
         "Peg.C22_identity_cache_invariant", "Peg.C22_only_active_set",
         "Peg.C22_full_false_active_set", "Peg.C22_full_false_gap_extension",
         "Peg.C22_ws_param_denotes", "Peg.C22_ws_param_skip", "Peg.C22_ws_param_literal",
+        "Peg.C22_tree_terminals_are_tokens", "Peg.C22_no_terminal_overlaps_gap", "Peg.C22_slice_extendGap",
+        "Peg.C22_term_value_ext", "Peg.C22_build_shift", "Peg.C22_model_unchanged", "Peg.C22_ws_param_tx",
     ]
     DRIVER = "Drivers/PegWs.lean"
     QUICK_CASES = 240
@@ -558,7 +569,7 @@ class Prop(Check):
                     info["log"] = log
                 return info
 
-            info = with_timeout(lambda: one(t), 5)
+            info = patient(lambda: one(t), 5)
             if "load" not in info:
                 d["load"] = info
                 res["texts"].append(d)
@@ -576,7 +587,7 @@ class Prop(Check):
                 for (p, ins, kind) in vs:
                     t2 = t[:p] + ins + t[p:]
                     v = {"p": p, "ins": ins, "kind": kind, "text": t2}
-                    i2 = with_timeout(lambda: one(t2), 5)
+                    i2 = patient(lambda: one(t2), 5)
                     v["load"] = i2.get("load", i2)
                     v["bad"] = i2.get("bad")
                     v["parse"] = with_timeout(lambda: peg.real_parse(mm._parser_blueprint.clone(), t2, objs))
